@@ -913,14 +913,19 @@ func c10WriteBack(p *Program, r *Report, m *vmModel, sums *typeSummaries) {
 
 // c10Make (R7): make(slice/chan) builds the container from the node's own length and capacity operands.
 func c10Make(p *Program, r *Report, m *vmModel, sums *typeSummaries) {
+	c10MakeRule(p, r, m, sums, "C10.R7", false)
+}
+
+// c10MakeRule: chanOnly restricts the obligations to channels (C16).
+func c10MakeRule(p *Program, r *Report, m *vmModel, sums *typeSummaries, rule string, chanOnly bool) {
 	h := m.handlers["expr"]["MakeExpr"]
 	if h == nil {
-		r.Undecided("C10.R7", "MakeExpr", "vm", "handler not found")
+		r.Undecided(rule, "MakeExpr", "vm", "handler not found")
 		return
 	}
 	va := buildEvalAnalysis(m)
 	a := newAddrAnalysis(m, va, sums)
-	n := 0
+	n, nChanLen, nChanNoLen := 0, 0, 0
 	for _, b := range h.Blocks {
 		for _, in := range b.Instrs {
 			c, ok := in.(*ssa.Call)
@@ -933,6 +938,9 @@ func c10Make(p *Program, r *Report, m *vmModel, sums *typeSummaries) {
 			}
 			switch o.Name() {
 			case "MakeSlice":
+				if chanOnly {
+					continue
+				}
 				n++
 				l, cp := a.symInt(h, c.Call.Args[1], 0), a.symInt(h, c.Call.Args[2], 0)
 				bad := ""
@@ -943,15 +951,115 @@ func c10Make(p *Program, r *Report, m *vmModel, sums *typeSummaries) {
 				} else if !strings.Contains(cp, "int(LenExpr)") {
 					bad = "without a capacity operand the capacity is " + cp + ", not the length"
 				}
-				r.Check(bad == "", "C10.R7", h.Name()+"|MakeSlice", p.Pos(c.Pos()), "MakeSlice(type, "+l+", "+cp+")", bad)
+				r.Check(bad == "", rule, h.Name()+"|MakeSlice", p.Pos(c.Pos()), "MakeSlice(type, "+l+", "+cp+")", bad)
 			case "MakeChan":
 				n++
 				l := a.symInt(h, c.Call.Args[1], 0)
-				r.Check(strings.Contains(l, "int(LenExpr)"), "C10.R7", h.Name()+"|MakeChan", p.Pos(c.Pos()), "MakeChan(type, "+l+")", "the buffer size is "+l+", not the node's length operand")
+				if k, ok := c.Call.Args[1].(*ssa.Const); ok && k.Value != nil && k.Int64() == 0 && onNilSideOfField(b, "LenExpr") {
+					nChanNoLen++
+					r.OK(rule, h.Name()+"|MakeChan without a size operand", p.Pos(c.Pos()), "MakeChan(type, 0) where the node has no length operand")
+					continue
+				}
+				nChanLen++
+				r.Check(strings.Contains(l, "int(LenExpr)"), rule, h.Name()+"|MakeChan", p.Pos(c.Pos()), "MakeChan(type, "+l+")", "the buffer size is "+l+", not the node's length operand")
 			}
 		}
 	}
-	r.Floor("C10.R7", n, 2)
+	if nChanNoLen > 0 && nChanLen == 0 {
+		r.Fail(rule, h.Name()+"|MakeChan", p.Pos(h.Pos()), "no channel is ever made with the node's length operand as its buffer size")
+	}
+	if chanOnly {
+		r.Floor(rule, n, 1)
+	} else {
+		r.Floor(rule, n, 2)
+	}
+	// a size is refused only when it is negative (Go's make accepts 0: an empty slice, an unbuffered channel)
+	k := 0
+	for _, b := range h.Blocks {
+		iff, ok := b.Instrs[len(b.Instrs)-1].(*ssa.If)
+		if !ok {
+			continue
+		}
+		bo, ok := iff.Cond.(*ssa.BinOp)
+		if !ok {
+			continue
+		}
+		z, ok := bo.Y.(*ssa.Const)
+		if !ok || z.Value == nil || z.Value.Kind().String() != "Int" || z.Int64() < -1 || z.Int64() > 1 {
+			continue
+		}
+		sym := a.symInt(h, bo.X, 0)
+		if !strings.Contains(sym, "int(LenExpr)") && !strings.Contains(sym, "int(CapExpr)") {
+			continue
+		}
+		// which edge raises the error
+		raises := func(blk *ssa.BasicBlock) bool {
+			for _, in := range blk.Instrs {
+				if st, ok := in.(*ssa.Store); ok && m.cellAddr(st.Addr, m.baseOf(h)) == "err" && !isNilConst(st.Val) {
+					return true
+				}
+			}
+			return false
+		}
+		// the side of the test from which alone an error of this handler is raised
+		r0, r1 := reachable(b.Succs[0], nil), reachable(b.Succs[1], nil)
+		t, f := false, false
+		for _, x := range h.Blocks {
+			if raises(x) && (x == b.Succs[0] || x == b.Succs[1] || (len(x.Preds) == 1 && isSizeTestChain(x.Preds[0], b))) {
+				if r0[x] && !r1[x] {
+					t = true
+				}
+				if r1[x] && !r0[x] {
+					f = true
+				}
+			}
+		}
+		if t == f {
+			continue
+		}
+		if chanOnly && !reachesCallNamed(b, "MakeChan") {
+			continue
+		}
+		k++
+		c := z.Int64()
+		good := (t && bo.Op == token.LSS && c == 0) || (t && bo.Op == token.LEQ && c == -1) || (f && bo.Op == token.GEQ && c == 0) || (f && bo.Op == token.GTR && c == -1)
+		r.Check(good, rule, fmt.Sprintf("%s|size #%d refused only when negative", h.Name(), k), p.Pos(instrPos(iff)), "error exactly for "+sym+" < 0",
+			fmt.Sprintf("the size %s is refused under `%s %d` (on the %s side): a size of 0 (an empty slice, an unbuffered channel — what Go's make accepts) is an error, or a negative one is not", sym, bo.Op, c, map[bool]string{true: "true", false: "false"}[t]))
+	}
+	want := 3
+	if chanOnly {
+		want = 1
+	}
+	if k < want {
+		r.Undecided(rule, h.Name()+"|size tests", p.Pos(h.Pos()), fmt.Sprintf("only %d tests of a size operand against zero that lead to an error found, %d confirmed by hand", k, want))
+	}
+}
+
+// onNilSideOfField: block b is reached only when the node's field `name` was found to be nil.
+func onNilSideOfField(b *ssa.BasicBlock, name string) bool {
+	for d := b; d != nil && d.Idom() != nil; d = d.Idom() {
+		id := d.Idom()
+		iff, ok := id.Instrs[len(id.Instrs)-1].(*ssa.If)
+		if !ok {
+			continue
+		}
+		bo, ok := iff.Cond.(*ssa.BinOp)
+		if !ok || !isNilConst(bo.Y) {
+			continue
+		}
+		u, ok := bo.X.(*ssa.UnOp)
+		if !ok {
+			continue
+		}
+		fa, ok := u.X.(*ssa.FieldAddr)
+		if !ok || fieldOfAddr(fa).Name() != name {
+			continue
+		}
+		if (bo.Op == token.EQL && edgeOnly(id, 0, d)) || (bo.Op == token.NEQ && edgeOnly(id, 1, d)) {
+			return true
+		}
+	}
+	return false
 }
 
 // c10Applied (R8): an operand that is evaluated and converted to an integer is applied: the integer reaches something other than
@@ -1549,4 +1657,55 @@ func c10DeleteValidates(p *Program, r *Report, m *vmModel) {
 	if n == 0 {
 		r.Undecided("C10.R2", "DeleteStmt|map arm", p.Pos(h.Pos()), "no Kind() == Map test found in the delete handler")
 	}
+}
+
+// reachesCallNamed: a call of reflect.<name> is reachable from b.
+func reachesCallNamed(b *ssa.BasicBlock, name string) bool {
+	for x := range reachable(b, nil) {
+		for _, in := range x.Instrs {
+			if c, ok := in.(*ssa.Call); ok {
+				if o := calleeObj(c); o != nil && o.Pkg() != nil && o.Pkg().Path() == "reflect" && o.Name() == name {
+					return true
+				}
+			}
+		}
+	}
+	return false
+}
+
+// isSizeTestChain: block x is reached from the size test in b through a short-circuit continuation (`size < 1 && other`).
+func isSizeTestChain(x, b *ssa.BasicBlock) bool {
+	for i := 0; i < 3 && x != nil; i++ {
+		if x == b {
+			return true
+		}
+		// an intermediate block of a short-circuit condition only computes the next test
+		for _, in := range x.Instrs {
+			switch in.(type) {
+			case *ssa.Store, *ssa.Return, *ssa.MapUpdate:
+				return false
+			case *ssa.Call:
+				if c := in.(*ssa.Call); reflectMethod(c) == "" && calleeObj(c) != nil {
+					return false
+				}
+			}
+		}
+		if len(x.Preds) != 1 {
+			return false
+		}
+		// ... and the two tests of a short-circuit condition share their other way out
+		shares := false
+		for _, s1 := range x.Succs {
+			for _, s2 := range b.Succs {
+				if s1 == s2 {
+					shares = true
+				}
+			}
+		}
+		if !shares {
+			return false
+		}
+		x = x.Preds[0]
+	}
+	return false
 }
